@@ -461,4 +461,8 @@ def run(R, ctx):
     literal_errors_propagate(R, ctx)
     worker_errors(R, ctx)
     str_slices(R, ctx)
+    # 'the output parses again': a string key or index is only ever written as a bare name when it is a Lua name -- the
+    # identifier predicate shared by convert_index_to_field, the data serializer and the table entry helpers (as C14.keyword)
+    from . import c14
+    c14.keyword(R, ctx, rid="C12.names")
     census(R, ctx)
